@@ -2,3 +2,15 @@ NOT_APPLICABLE = {}
 add("C12", "exploration", "model-based differential testing of both store drivers against an executable contract model (runtime monitor over recorded call results)",
     "Random operation histories run on the memory and badger drivers and on a reference model of the documented Store contract; every return value and error is compared. Sampled histories, not all histories.",
     "Trusts the harness's reference model (DESIGN.md appendix A) and that time classes kept >=10 s from the window boundaries behave like all others.")
+add("C11", "exploration", "tracked-peer reference model compared online with store results and vipnode_update replies (runtime monitor with injected LastSeen classes)",
+    "Store-level and pool-level keep-alive histories with injected check-in ages on both drivers; inactive lists, NodePeers, InvalidPeers and ActivePeers are compared with a tracked-peer model after every step.",
+    "The 120 s boundary is approached only to +-10 s (drivers read the wall clock); trusts the harness model.")
+add("C02", "exploration", "exact rational-arithmetic reference for every balance delta on a virtual billing clock (hooked clock), slicing-invariance oracle",
+    "Manager-level grids and signed pool-level keep-alive histories on a pinned billing clock; every account delta, the reply balance and the LastSeen advance are compared with floor(elapsed*price/interval); the same span billed in 1/few/many slices must agree within one unit per update per peer.",
+    "Trusts the verif clock hook (VerifSetNow) to be the only time source of the billing formula; spans < 100 years.")
+add("C01", "exploration", "conservation oracle (ledger total computed two ways) after every operation of sequential, fault-injected and concurrent histories",
+    "Random pool histories incl. low-balance cut-offs, wallet linking, forged requests; single injected store faults; concurrent updates with injected delays; the sum of all credit must stay 0 (Stats and per-account sum).",
+    "Fault discipline: at most one failing store call per pool operation. Concurrency coverage is what the scheduler and injected delays produced.")
+add("C03", "exploration", "threshold-grid oracle on store-read balances plus recorded vipnode_disconnect fan-out (runtime monitor over fake hosts)",
+    "Connects and billed keep-alives with balance-after-charge placed at min-1/min/min+1/far on all deposit/credit splits and charge sizes; refusal iff below, reported balance equals stored balance, every connected peering host receives vipnode_disconnect(client).",
+    "Deposits are modelled by a harness BalanceStore wrapper equivalent to contractPayment's deposit overlay.")
